@@ -262,6 +262,36 @@ def run(tier, seed, replay):
             sf = len(lines)
             lines += gen_scripts.settle_lines(meta)
             out.append(("groups-%d" % i, lines, sf))
+        # a mutate message that arrives after the client has applied the despawn (or the loss) of one of the entities in it:
+        # the other entities of the message must still be updated completely or not at all, and nothing may be corrupted
+        for i in range(30 if tier == "quick" else 1200):
+            pol = rng.choice(["all", "all", "black"])
+            lines = ["cfg policy=%s auth=none track=%d nclients=1 timeout=10000" % (pol, rng.randrange(2)), "start", "sframe 0 10", "connect 0 1200"]
+            n = rng.randrange(3, 6)
+            a1, a2 = n + 1, n + 2                           # anchors: reference targets that never change
+            lines.append("sop spawn %d 1 0=1" % a1)
+            lines.append("sop spawn %d 1 0=2" % a2)
+            for e in range(1, n + 1):
+                lines.append("sop spawn %d 1 0=%d 1=%d 3=r%d" % (e, rng.randrange(50), rng.randrange(50), rng.choice([a1, a2])))
+            lines += ["sframe 1 16", "deliver 0 s2c 0 all", "cframe 0", "deliver 0 c2s 0 all"]
+            for e in range(1, n + 1):
+                for k in (0, 1, 3):
+                    if rng.random() < 0.8:
+                        lines.append("sop mutate %d %d=%s" % (e, k, ("r%d" % rng.choice([a1, a2])) if k == 3 else str(rng.randrange(100, 200))))
+            lines.append("sframe 1 16")                     # its mutate message is held back
+            gone = rng.sample(range(1, n + 1), rng.choice([1, 1, 2]))
+            for e in gone:
+                lines.append(rng.choice(["sop despawn %d" % e, "sop unmark %d" % e] + (["sop vis 0 %d 0" % e] if pol == "black" else [])))
+            lines.append("sframe 1 16")
+            lines += ["deliver 0 s2c 0 all", "cframe 0"]   # the despawn is applied first
+            lines.append("drop 0 s2c 1 last")              # the newer tick's mutate message is lost
+            lines += ["deliver 0 s2c 1 all", "cframe 0", "deliver 0 c2s 0 all"]
+            for _ in range(rng.randrange(1, 3)):
+                lines.append("sframe 1 16")
+            meta = dict(connected=[0], events=False)
+            sf = len(lines)
+            lines += gen_scripts.settle_lines(meta)
+            out.append(("late-mutate-%d" % i, lines, sf, {"C10", "C02", "C01"}))
         return out
     o2, d2 = simcheck.sim_collect(rep, "C10", tier, rng, seed, kws, 160, 16000, oracle_props={"C10", "C02"}, custom_scripts=group_scripts,
                                   rule_extra=", tiny per-client max message sizes so that every tick's mutations are split, with mutate messages dropped and reordered, and a relationship registered with "
